@@ -2,6 +2,7 @@
 sequence and dump the raw pointer graph after every public call."""
 import contextlib
 import io
+import json
 import random
 
 from . import treeio
@@ -41,13 +42,19 @@ def norm_op(o):
 
 
 _TF_COUNTER = [0]
+_TF_FILES = {}
 
 
 def _terminal_file(tmpdir, sid, rows):
-    """a fresh file name per call: the transformations cache by file name"""
+    """one terminal file per (case, rows), as in a run of the tool, where one file serves every tree; its name
+    is never reused for other contents (the transformations cache the file by name)"""
     import os
+    key = (tmpdir, sid, json.dumps(rows, sort_keys=True))
+    if key in _TF_FILES:
+        return _TF_FILES[key]
     _TF_COUNTER[0] += 1
     fn = os.path.join(tmpdir, 'terms_%d_%d.txt' % (os.getpid(), _TF_COUNTER[0]))
+    _TF_FILES[key] = fn
     with open(fn, 'w') as f:
         f.write('%d 1 decoy DECOY\n' % (sid + 7))
         for r in rows:
@@ -56,7 +63,9 @@ def _terminal_file(tmpdir, sid, rows):
     return fn
 
 
-def call_op(mods, o, tree, tmpdir=None):
+def call_op(mods, o, tree, tmpdir=None, sibling=False):
+    """sibling: before the call, the same operation with the same terminal file is applied to another tree that
+    has the same sentence id (a second file in directory mode; its result is not looked at)"""
     tf = mods['transform']
     trees = mods['trees']
     name = o['name']
@@ -79,6 +88,13 @@ def call_op(mods, o, tree, tmpdir=None):
         params['terminalfile'] = _terminal_file(tmpdir, tree.data['sid'], o['rows'])
         if 'quiet' in o['flags']:
             params['quiet'] = True
+        if sibling:
+            import copy
+            with contextlib.redirect_stdout(io.StringIO()), contextlib.redirect_stderr(io.StringIO()):
+                try:
+                    getattr(tf, name)(copy.deepcopy(tree), **params)
+                except Exception:
+                    pass
     if name == 'filter_by_length':
         params['filteroperator'] = o['fop']
         params['filtervalue'] = o['fval']
@@ -117,7 +133,7 @@ def record_case(cid, T, ops, mods, seed, origin='tlc', shuffle=True, exotic=True
         err = io.StringIO()
         try:
             with contextlib.redirect_stdout(out), contextlib.redirect_stderr(err):
-                ret = call_op(mods, o, cur, tmpdir)
+                ret = call_op(mods, o, cur, tmpdir, sibling=seed % 2 == 1)
             ev['res'] = 'ok'
             ev['exc'] = '~'
             ev['post'] = dmp.dump(ret, also=[cur])
@@ -137,6 +153,8 @@ def record_case(cid, T, ops, mods, seed, origin='tlc', shuffle=True, exotic=True
             break
         events.append(ev)
     shutil.rmtree(tmpdir, ignore_errors=True)
+    for k in [k for k in _TF_FILES if k[0] == tmpdir]:
+        del _TF_FILES[k]
     # trace words as characters (ptb_delete_traces parses them)
     wc = sorted({(x['a']['word'], tuple(treeio.chars(atoms.conc(x['a']['word'])))) for x in T['nodes']
                  if x['tok'] and ''.join(x['a']['lab']) == '-NONE-'})
@@ -146,7 +164,7 @@ def record_case(cid, T, ops, mods, seed, origin='tlc', shuffle=True, exotic=True
         while len(g['nodes']) < n:
             g['nodes'].append(dead_record(dmp))
     return {'id': cid, 'origin': origin, 'init': G0, 'events': events,
-            'wc': [[w, list(c)] for (w, c) in wc]}
+            'wc': [[w, list(c)] for (w, c) in wc], 'sibling_first': seed % 2 == 1}
 
 
 def dead_record(dmp):
